@@ -19,6 +19,7 @@ RAC = {
     'lsp_glue': dict(crate='harper-ls', attach='harper-ls/src/document_state.rs', file='document_state.rs', test='rac_lsp_glue', target=['--bin', 'harper-ls'], function='DocumentState::generate_diagnostics / generate_code_actions / lint_to_code_actions'),
     'fuzzy_backends': dict(crate=CORE, attach=S + 'spell/fst_dictionary.rs', file='fuzzy.rs', test='rac_fuzzy_backends', function='FstDictionary / MutableDictionary (exact queries, fuzzy_match)'),
     'condense_indices': dict(crate=CORE, attach=S + 'document.rs', file='document.rs', test='rac_condense_indices', function='Document::condense_indices'),
+    'edit_distance_long': dict(crate=CORE, attach=S + 'edit_distance.rs', file='edit_distance.rs', test='rac_edit_distance_long', function='edit_distance (beyond the proved bound)'),
 }
 # Verus piece name -> runtime contract checks that exercise the same clause on the real code
 RAC_FOR_FUNCTION = {
